@@ -233,8 +233,6 @@ fn d7_stale_window_sibling() {
     // do not alias to "too recent" during the scenario (residues 14,15,0,1,2 are bad)
     churn(20);
     while vhook::epoch() % 16 != 0 { churn(1); }
-    churn(20);
-    while vhook::epoch() % 16 != 0 { churn(1); }
     let (pn, _pd) = node(30);
     let p = Rc::new(pn);
     // left: chain of 1000 nodes
